@@ -47,7 +47,9 @@ type Rotation struct {
 	Rejected   int  // requests issued after the server switched salts
 	AnswerNow  int  // how many outstanding requests are answered before the next rotation (the rest stays pending)
 	NewSession bool // the new salt is announced by new_session_created instead of being learnt from a rejection
-	Order      uint64
+	// HoldRejected: the first rejected sender is held right after its write until the bad_server_salt has reached the client
+	HoldRejected bool
+	Order        uint64
 }
 
 func salts(i int) int64 { return int64(0x1122334455660000) + int64(i+1)*0x101 }
@@ -96,7 +98,15 @@ func build(src scen.Source, keys []refsrv.RSAKeyJSON, p Plan) (*scen.Scenario, e
 		} else {
 			steps = append(steps, scen.Step{Op: "rotate", Salt: salts(ri)})
 		}
-		newCalls(r.Rejected)
+		if r.Rejected > 0 && r.HoldRejected {
+			// the rejection reaches the client while the rejected sender is still inside the send path
+			h := &scen.HoldSpec{Point: "send.written", Tag: tag, Manual: true, Ms: 400}
+			steps = append(steps, scen.Step{Op: "hold", Hold: h})
+			newCalls(r.Rejected)
+			steps = append(steps, scen.Step{Op: "sleep", Ms: 20}, scen.Step{Op: "release", Hold: h})
+		} else {
+			newCalls(r.Rejected)
+		}
 		if r.Rejected == 0 {
 			// nobody is talking: a request makes the client learn the new salt (and, for new_session_created, its
 			// acceptance shows that the announcement has been processed)
@@ -312,6 +322,9 @@ func classes(p Plan) ([]string, bool) {
 		if r.NewSession {
 			cls = append(cls, "salt-by-new_session_created")
 		}
+		if r.HoldRejected && r.Rejected > 0 && !r.NewSession {
+			cls = append(cls, "directed:rejection-while-sender-in-send-path")
+		}
 		if p.Fresh && i == 0 {
 			cls = append(cls, "fresh-keyed+rotation")
 		}
@@ -343,7 +356,8 @@ func genPlan(t *rapid.T) Plan {
 	k := rapid.IntRange(1, 3).Draw(t, "rotations")
 	for i := 0; i < k; i++ {
 		p.Rotations = append(p.Rotations, Rotation{Accepted: rapid.IntRange(0, 3).Draw(t, "accepted"), Rejected: rapid.IntRange(0, 3).Draw(t, "rejected"),
-			AnswerNow: rapid.IntRange(0, 6).Draw(t, "answernow"), NewSession: rapid.IntRange(0, 5).Draw(t, "newsession") == 0, Order: rapid.Uint64().Draw(t, "order")})
+			AnswerNow: rapid.IntRange(0, 6).Draw(t, "answernow"), NewSession: rapid.IntRange(0, 5).Draw(t, "newsession") == 0, HoldRejected: rapid.IntRange(0, 2).Draw(t, "holdrejected") == 0,
+			Order: rapid.Uint64().Draw(t, "order")})
 	}
 	nk := rapid.IntRange(1, 4).Draw(t, "nkinds")
 	for i := 0; i < nk; i++ {
@@ -386,6 +400,9 @@ func TestC11(t *testing.T) {
 				for r := 0; r <= 2; r++ {
 					for now := 0; now <= a+r; now++ {
 						plans = append(plans, Plan{Fresh: fresh, Rotations: []Rotation{{Accepted: a, Rejected: r, AnswerNow: now, Order: uint64(a*7 + r)}}})
+						if r > 0 && now == 0 {
+							plans = append(plans, Plan{Fresh: fresh, Rotations: []Rotation{{Accepted: a, Rejected: r, AnswerNow: now, HoldRejected: true, Order: uint64(a*7 + r)}}})
+						}
 						for a2 := 0; a2 <= 1; a2++ {
 							for r2 := 0; r2 <= 1; r2++ {
 								plans = append(plans, Plan{Fresh: fresh, Rotations: []Rotation{{Accepted: a, Rejected: r, AnswerNow: now, Order: uint64(now)}, {Accepted: a2, Rejected: r2, AnswerNow: 9, Order: uint64(a2 + 2*r2)}}})
